@@ -84,7 +84,7 @@ pub proof fn lemma_chunked_step(c1: MemcacheBinaryCodec, b1: Seq<u8>, p: Seq<u8>
 
 // After a frame has been taken, the remaining pending stream is the suffix: the next decode is
 // constrained by first_frame of exactly the bytes that follow the frame.
-pub proof fn lemma_after_frame(c: MemcacheBinaryCodec, buf: Seq<u8>, p: Seq<u8>, limit: u32, r: Result<Option<BinaryRequest>, io::Error>) // @ob C09 lemma.after_frame
+pub proof fn lemma_after_frame(c: MemcacheBinaryCodec, buf: Seq<u8>, p: Seq<u8>, limit: u32, r: core::result::Result<Option<BinaryRequest>, io::Error>) // @ob C09 lemma.after_frame
     requires decode_post(p, limit, r, c, buf), first_frame(p, limit) is Frame, r is Ok,
     ensures pend(c, buf, p.subrange(24 + first_frame(p, limit)->Frame_0.body_length, p.len() as int)),
 {
